@@ -634,11 +634,10 @@ def fs_scenarios(S, tier='quick', extra=False):
             return None
         return dict(scenario='arraypool', via=('save/close/open, then pickle of the node store' if repickle else 'save/close/open') if via_open else 'pickle of the node store'), run
     out += [pool(False), pool(True)]
-    if extra:
-        # FAILS on the pinned tree (reported, not part of the bounded run): ArrayPool.open unpickles the node stores inside the pool folder, so
-        # with a relative prefix they are bound to the bare base name; pickling such a store again from the restored working directory binds
-        # the copy to a namesake file there (or raises FileNotFoundError).  `./check C06 --replay` with this input reproduces it.
-        out.append(pool(True, True))
+    # ArrayPool.open unpickles the node stores inside the pool folder; with a relative prefix the unfixed tree bound them to the bare base name
+    # (relative to a directory that is no longer current): pickling such a store again from the restored working directory bound the copy to a
+    # namesake file there or raised FileNotFoundError (genuine defect found in round 2, repaired in /repo: see KNOWN_FINDINGS.jsonl)
+    out.append(pool(True, True))
 
     def names(stem, first, second, mode):
         def run():
@@ -883,6 +882,21 @@ def sanity():
                 ok_rt &= (sh == (r,) + tail) and (fo is False) and (d == np.dtype(dt)) and f.tell() == top and len(img) == top
     out.append(('numpy header length > 12, non-decreasing in rows, <= length for 2**64 rows', bool(ok_len)))
     out.append(('numpy header round trip through prefix + text + space padding, cursor ends at the fixed length', bool(ok_rt)))
+    # os.path.abspath (assumed facts of contracts/c06.py::abs_facts)
+    dd = _tmpdir()
+    here = os.getcwd()
+    try:
+        os.chdir(dd)
+        open('t.npy', 'wb').write(b'x')
+        ok_abs = True
+        for q in ('t.npy', 'missing.npy', os.path.join('sub', 't.npy'), 't'):
+            a_ = os.path.abspath(q)
+            ok_abs &= os.path.exists(a_) == os.path.exists(q) and a_.endswith('.npy') == q.endswith('.npy') and os.path.basename(a_) == os.path.basename(q) \
+                and os.path.abspath(a_) == a_ and (not os.path.exists(q) or os.path.samefile(a_, q))
+        out.append(('os.path.abspath(p) names the file p names, exists / ends with .npy / has the base name as p does, idempotent', bool(ok_abs)))
+    finally:
+        os.chdir(here)
+        shutil.rmtree(dd, ignore_errors=True)
     d = _tmpdir()
     try:
         p = os.path.join(d, 's.npy')
